@@ -114,9 +114,23 @@ Snapshot ==
                                        kinds |-> SetToSeq({kind[r] : r \in Q})]]))
   /\ UNCHANGED vars
 
+\* the symmetric schedules: a reader is suspended inside its critical section
+\* (holding the read lock) while the writer waits for the lock and further
+\* queries queue behind the waiting writer
+SnapshotR ==
+  /\ EmitSchedules /\ wpc = "wait"
+  /\ \E r \in Readers :
+       /\ rpc[r] = "in" /\ r \in rlock
+       /\ LET Q == {q \in Readers \ {r} : rpc[q] = "wait"} IN
+          PrintT("@@" \o ToJson([fam |-> "lock", hist |-> <<>>, step |-> [a |-> "schedule"],
+                                   expect |-> [n |-> 0, roots |-> <<>>],
+                                   g |-> [site |-> 0, reader |-> kind[r],
+                                          kinds |-> SetToSeq({kind[q] : q \in Q})]]))
+  /\ UNCHANGED vars
+
 NextReal == WBegin \/ WAcquire \/ WStep \/ WRelease
             \/ (\E r \in Readers : RCall(r) \/ RAcquire(r) \/ RRead(r) \/ RDone(r))
-Next == NextReal \/ Snapshot
+Next == NextReal \/ Snapshot \/ SnapshotR
 
 Fairness == /\ WF_vars(WBegin) /\ WF_vars(WAcquire) /\ WF_vars(WStep) /\ WF_vars(WRelease)
             /\ \A r \in Readers : WF_vars(RAcquire(r)) /\ WF_vars(RRead(r)) /\ WF_vars(RDone(r))
